@@ -45,6 +45,13 @@ def base_pool():
     atoms += [2 ** 53, 2 ** 53 + 1, float(2 ** 53), 2 ** 63 - 1, 2 ** 63 + 1, float(2 ** 63),
               1700000000000000001, 1700000000000000002, -(2 ** 53) - 1, -(2 ** 53), 10 ** 400]
     out = list(atoms)
+    # one-entry objects / pairs built from the words a tagged hashable form might use
+    for w in ('bool', 'int', 'float', 'str', 'list', 'dict', 'tuple', 'none', 'null', 'true', 'false'):
+        for val in (0, 1, True, False, None, 1.0):
+            out.append({w: val})
+        out.append([w, True])
+        out.append([w, 1])
+        out.append((w, False))
     out += [[2 ** 53 + 1], [2 ** 53], {'n': 2 ** 63 + 1}, {'n': 2 ** 63}, {2 ** 53 + 1: 'k'}, {2 ** 53: 'k'}]
     for a in small:
         out.append([a])
